@@ -383,6 +383,19 @@ func (w *walker) fail(format string, a ...interface{}) {
 }
 
 // loopEffects: classes written by the natural loop of header h (blocks dominated by h that reach a back edge).
+// isDirectParamField: the memory key is faddr(p<n>[@fn],field).
+func isDirectParamField(mk string) bool {
+	if !strings.HasPrefix(mk, "faddr(p") {
+		return false
+	}
+	rest := mk[len("faddr(p"):]
+	i := 0
+	for i < len(rest) && rest[i] >= '0' && rest[i] <= '9' {
+		i++
+	}
+	return i > 0 && i < len(rest) && (rest[i] == ',' || rest[i] == '@')
+}
+
 func (w *walker) loopEffects(h *ssa.BasicBlock) *effectSet {
 	body := map[*ssa.BasicBlock]bool{h: true}
 	var stack []*ssa.BasicBlock
@@ -463,6 +476,26 @@ func (w *walker) enterBlock(b *ssa.BasicBlock, from *ssa.BasicBlock, st *pstate)
 			st.invalidate(clsAll)
 		}
 		for c := range es.cls {
+			if !es.nonFresh[c] {
+				// written in the loop only through fields of objects allocated by this call: what is known about the
+				// same fields of the objects the parameters point to stays valid
+				type kept struct {
+					k string
+					v *Term
+				}
+				var keep []kept
+				for mk, mc := range st.memCls {
+					if mc == c && isDirectParamField(mk) {
+						keep = append(keep, kept{mk, st.mem[mk]})
+					}
+				}
+				st.invalidate(c)
+				for _, kp := range keep {
+					st.mem[kp.k] = kp.v
+					st.memCls[kp.k] = c
+				}
+				continue
+			}
 			st.invalidate(c)
 		}
 		// local cells written in the loop
@@ -900,6 +933,35 @@ func (w *walker) store(st *pstate, addr, val *Term) {
 			other := &Term{Op: "faddr", Args: []*Term{{Op: "param", N: i, Fn: w.fn}}, Obj: addr.Obj}
 			if v, ok := st.mem[other.Key()]; ok {
 				keep = append(keep, kept{other.Key(), st.memCls[other.Key()], v})
+			}
+		}
+	}
+	// an object allocated by this call is not the object a pointer parameter refers to: a field store into the one
+	// leaves what is known about the same-class fields of the other intact
+	if addr.Op == "faddr" && !strings.HasPrefix(cls, "l:") {
+		keepPrefix := ""
+		switch addr.Args[0].Op {
+		case "alloc":
+			keepPrefix = "faddr(p"
+		case "param":
+			keepPrefix = "faddr(alloc("
+		}
+		if keepPrefix != "" {
+			for mk, mc := range st.memCls {
+				if mc == cls && strings.HasPrefix(mk, keepPrefix) && mk != k {
+					if keepPrefix == "faddr(p" {
+						// only direct fields of a parameter: faddr(p<digits>[@fn],...)
+						rest := mk[len("faddr(p"):]
+						i := 0
+						for i < len(rest) && rest[i] >= '0' && rest[i] <= '9' {
+							i++
+						}
+						if i == 0 || i >= len(rest) || (rest[i] != ',' && rest[i] != '@') {
+							continue
+						}
+					}
+					keep = append(keep, kept{mk, mc, st.mem[mk]})
+				}
 			}
 		}
 	}
